@@ -4,6 +4,7 @@ import (
 	"fmt"
 	"os"
 	"runtime"
+	rconfig "seata.apache.org/seata-go/pkg/remoting/config"
 	"strings"
 	"sync"
 	"time"
@@ -142,6 +143,45 @@ func runC14(c *Ctx) {
 	var mu sync.Mutex
 	byXid := map[string]*c14Caller{}
 	asyncIDs := map[string]int32{}
+	// the session goes away between being chosen and being written to: the request fails, and nothing of it
+	// stays behind in the table of pending requests
+	if cfg := rconfig.GetSeataConfig(); cfg != nil {
+		savedLB := cfg.LoadBalanceType
+		cfg.LoadBalanceType = "XID"
+		coord.Script = nil
+		for k := 1; k <= 4; k++ {
+			for _, async := range []bool{false, true} {
+				cid := fmt.Sprintf("closing-%d-%v", k, async)
+				if !c.Want(cid) {
+					continue
+				}
+				addr := fmt.Sprintf("10.2.0.%d:8091", 10+k)
+				s2 := coord.OpenSessionAt(addr)
+				time.Sleep(10 * time.Millisecond)
+				f0, _ := sgetty.VerifPendingFutures()
+				s2.CloseAtCheck(k)
+				req := message.GlobalStatusRequest{AbstractGlobalEndRequest: message.AbstractGlobalEndRequest{Xid: fmt.Sprintf("%s:%d", addr, 4200+k)}}
+				var err error
+				crash := safeCall(func() {
+					if async {
+						err = sgetty.GetGettyRemotingClient().SendAsyncRequest(req)
+					} else {
+						_, err = sgetty.GetGettyRemotingClient().SendSyncRequest(req)
+					}
+				})
+				if async && err == nil {
+					time.Sleep(50 * time.Millisecond) // an async request that did go out (over another session) is answered
+				}
+				f1, _ := sgetty.VerifPendingFutures()
+				s2.CloseFromPeer()
+				c.Out.Case(cid, "C14", "skip", "skip")
+				c.Out.Oracle(cid, crash == "" && f1 == f0, "future_left_behind_by_a_refused_request", fmt.Sprintf("session closed at its IsClosed question %d, async=%v: err=%v pending futures %d -> %d crash=%s", k, async, err, f0, f1, crash))
+				c.Out.Tag(cid, "nontrivial=1")
+				c.Out.Count("closing-session")
+			}
+		}
+		cfg.LoadBalanceType = savedLB
+	}
 	coord.Script = func(s *FakeSession, kind string, m message.RpcMessage) Action {
 		if b, ok := m.Body.(message.GlobalStatusRequest); ok {
 			if strings.HasSuffix(b.Xid, "-async") {
